@@ -837,8 +837,7 @@ def ints_in_range(raw, shape):
 
 
 # programs that demonstrate a recorded finding are run only by the properties the finding is recorded under
-ONLY_FOR = {"map_blocks(first,((x[1,1,4]+y[1,4,1])[::-1])*2)": ("C01", "C02"),
-            "map_blocks(np.add,sliding_window_view(x[1,1,1,1],W).sum(-1),y)": ("C01", "C02")}
+ONLY_FOR = {"map_blocks(np.add,sliding_window_view(x[1,1,1,1],W).sum(-1),y)": ("C01", "C02")}
 
 
 # program descriptions: name -> builder(w, E) -> Prog
@@ -900,7 +899,9 @@ def programs(tier):
     reg("blocks[1:](x3(zero-width chunks allowed)[a:b])", lambda w, E: p_blocks(w, E, p_slice(w, source(w, E, "x", (3,), lo=0), raw_index(E, (F,))), slice(1, None)), 4)
     reg("blocks[1](x3)", lambda w, E: p_blocks(w, E, source(w, E, "x", (3,)), 1), 1)
     reg("blocks[1,::-1](x2x2.T)", lambda w, E: p_blocks(w, E, p_transpose(w, source(w, E, "x", (2, 2)), (1, 0)), (1, slice(None, None, -1))), 2)
-    reg("map_blocks(first,((x[1,1,4]+y[1,4,1])[::-1])*2)", lambda w, E: p_map_first(w, E, p_elemwise(w, operator.mul, p_slice(w, _add_concrete(w, E, (1, 1, 4), (1, 4, 1)), raw_index(E, REV)), 2.0), site=MAP_BLOCKS_DRIFT_SITE), 3)
+    reg("map_blocks(first,((x[1,1,4]+y[1,4,1])[::-1])*2)", lambda w, E: p_map_first(w, E, p_elemwise(w, operator.mul, p_slice(w, _add_concrete(w, E, (1, 1, 4), (1, 4, 1)), raw_index(E, REV)), 2.0)), 3)
+    reg("map_blocks(first,(x[4,8]+y[8,4])[5:12]*2)", lambda w, E: p_map_first(w, E, p_elemwise(w, operator.mul, p_slice(w, _add_concrete(w, E, (4, 8), (8, 4)), (slice(5, 12),)), 2.0)), 3)
+    reg("map_blocks(first,(x[2,2,2,2,2,2]+y[1,11])[[9,7,5]]*2)", lambda w, E: p_map_first(w, E, p_elemwise(w, operator.mul, p_take(w, E, _add_concrete(w, E, (2,) * 6, (1, 11)), 0, [9, 7, 5]), 2.0)), 3)
     reg("map_blocks(first,x3[::-1])", lambda w, E: p_map_first(w, E, p_slice(w, source(w, E, "x", (3,)), raw_index(E, REV))), 2)
     # creation with affine values: slices fold into start/step (Arange._accept_slice)
     reg("arange(start,stop,2;3 blocks)", lambda w, E: p_arange(w, E, 2, 3), 2)
